@@ -320,6 +320,12 @@ class LayoutPlugin(Plugin):
             return x.length()
         return NotImplemented
 
+    def truth(self, I, v):
+        """bool(s) of a layout string: it is non-empty"""
+        if isinstance(v, LStr):
+            return sym.num_cmp(">", v.length(), 0)
+        return None
+
     def eq(self, I, a, b):
         if isinstance(a, LStr) or isinstance(b, LStr):
             if not isinstance(a, (LStr, str)) or not isinstance(b, (LStr, str)):
@@ -398,6 +404,19 @@ class LayoutPlugin(Plugin):
             items = c.items if isinstance(c, PList) else list(c)
             return sym.b_or(*[self.eq(I, x, y) for y in items if isinstance(y, (str, LStr))])
         if isinstance(c, LStr) and isinstance(x, str):
+            # a constant needle none of whose characters can occur in a number token and that holds no blank: it can only
+            # lie inside a run of literal text (number tokens and blank runs break the runs)
+            numeric = set("0123456789.-+")
+            if x and not (set(x) & numeric) and " " not in x \
+                    and all(isinstance(sg, (Lit, Sp)) or (isinstance(sg, TokS) and sg.tok.kind in ("int", "fixed")) for sg in c.segs):
+                run, hit = "", False
+                for sg in c.segs:
+                    if isinstance(sg, Lit):
+                        run += sg.text
+                    else:
+                        hit = hit or (x in run)
+                        run = ""
+                return hit or (x in run)
             raise Unsupported("substring test on a layout string")
         return NotImplemented
 
